@@ -257,18 +257,33 @@ def _config(w: World) -> Dict[str, Any]:
         'strict': not ch.flag(1, 4, 'cfg.nonstrict'),
         'latency': [ch.choice(gen.PAUSES, 'cfg.pre'), ch.choice(gen.PAUSES, 'cfg.post')],
         'error_cls': 'custom' if ch.flag(1, 4, 'cfg.error_cls') else 'base',
+        'client_hooks': ch.flag(1, 4, 'cfg.client_hooks'), 'server_hooks': ch.flag(1, 4, 'cfg.server_hooks'),
     }
     if cfg['server_async']:
         cfg['flavour'] = ch.choice(['async', 'mixed', 'sync'], 'cfg.flavour')
     return cfg
 
 
+def _client_kwargs(cfg: Dict[str, Any]) -> Dict[str, Any]:
+    kw = {'id_gen_impl': ID_GENERATORS[cfg['id_gen']], 'strict': cfg['strict'], 'error_cls': ERROR_CLASSES[cfg['error_cls']]}
+    if cfg.get('client_hooks'):
+        from ..hooks import client_hooks
+        kw.update(client_hooks())
+    return kw
+
+
+def _dispatcher_kwargs(cfg: Dict[str, Any]) -> Dict[str, Any]:
+    if cfg.get('server_hooks'):
+        from ..hooks import server_hooks
+        return server_hooks()
+    return {}
+
+
 def _stack(w: World, cfg: Dict[str, Any], suffix: str) -> Stack:
     seed_generators(w)
     script = [{'pre': cfg['latency'][0], 'post': cfg['latency'][1]}] * 8
     return Stack(w, cfg['client_async'], cfg['server_async'], cfg['flavour'],
-                 client_kwargs={'id_gen_impl': ID_GENERATORS[cfg['id_gen']], 'strict': cfg['strict'],
-                                'error_cls': ERROR_CLASSES[cfg['error_cls']]},
+                 client_kwargs=_client_kwargs(cfg), dispatcher_kwargs=_dispatcher_kwargs(cfg),
                  script=script, suffix=suffix)
 
 
@@ -360,8 +375,7 @@ def fam_generations(w: World) -> None:
             order = order[:max(3, len(order) // 2)]
         script = [{'pre': cfg['latency'][0], 'post': cfg['latency'][1]}] * 8
         st = Stack(w, cfg['client_async'], cfg['server_async'], cfg['flavour'],
-                   client_kwargs={'id_gen_impl': ID_GENERATORS[cfg['id_gen']], 'strict': cfg['strict'],
-                                  'error_cls': ERROR_CLASSES[cfg['error_cls']]},
+                   client_kwargs=_client_kwargs(cfg), dispatcher_kwargs=_dispatcher_kwargs(cfg),
                    script=script, suffix=f'g{g}', methods=order)
         calls = []
         for k in range(1 + ch.draw(4, 'n_calls')):
@@ -579,8 +593,7 @@ def fam_concurrent(w: World) -> None:
     seed_generators(w)
     script = [{'pre': ch.choice(gen.PAUSES, 'net.pre'), 'post': ch.choice(gen.PAUSES, 'net.post')} for _ in range(n)]
     st = Stack(w, True, cfg['server_async'], cfg['flavour'],
-               client_kwargs={'id_gen_impl': ID_GENERATORS[cfg['id_gen']], 'strict': cfg['strict'],
-                              'error_cls': ERROR_CLASSES[cfg['error_cls']]}, script=script)
+               client_kwargs=_client_kwargs(cfg), dispatcher_kwargs=_dispatcher_kwargs(cfg), script=script)
     cl = st.client
     results: Dict[int, Tuple[Any, ...]] = {}
 
